@@ -43,26 +43,33 @@ structure Rounded where
   tiny : Bool        -- tiny after rounding (see below)
   deriving Repr
 
+/-- the exponent `e0` with `2^(p-1) ≤ (n/d) / 2^e0 < 2^p` (`n, d > 0`): `p` significant bits before the point -/
+def normExp (f : Format) (n d : Nat) : Int :=
+  let l : Int := (Nat.log2 n : Int) - (Nat.log2 d : Int) - ((f.p : Int) - 1)
+  -- n/d / 2^l lies in (2^(p-2), 2^p)
+  let s := scaled n d l
+  if s.1 < s.2 * 2 ^ (f.p - 1) then l - 1 else l
+
+/-- `(n/d) / 2^e` rounded to the nearest integer, ties to even; was it inexact? -/
+def roundAt (n d : Nat) (e : Int) : Option (Nat × Bool) :=
+  let s := scaled n d e
+  if s.2 = 0 then none else some (divRound s.1 s.2)
+
 /-- round the positive rational `n/d` (`n, d > 0`) to nearest, ties to even, in format `f`
     with gradual underflow; the result may exceed `qmax` (overflow is the caller's business) -/
 def roundPos (f : Format) (n d : Nat) : Option Rounded :=
   if n = 0 ∨ d = 0 then none else
-  let l : Int := (Nat.log2 n : Int) - (Nat.log2 d : Int) - ((f.p : Int) - 1)
-  -- n/d / 2^l lies in (2^(p-2), 2^p); make it lie in [2^(p-1), 2^p)
-  let (N0, D0) := scaled n d l
-  let e0 := if N0 < D0 * 2 ^ (f.p - 1) then l - 1 else l
-  -- as if the exponent range were unbounded: `p` significant bits at exponent `e0`
-  let (Nu, Du) := scaled n d e0
+  let e0 := normExp f n d
   -- gradual underflow: the exponent does not go below `qmin`
   let e := if e0 < f.qmin then f.qmin else e0
-  let (N, D) := scaled n d e
-  if Du = 0 ∨ D = 0 then none else
-  let (mu, _) := divRound Nu Du
-  let (m, inexact) := divRound N D
-  -- tiny after rounding: `mu · 2^e0 < 2^(p-1) · 2^qmin`, the smallest normal number
-  let tiny := decide (e0 < f.qmin ∧ ¬ (e0 + 1 = f.qmin ∧ mu = 2 ^ f.p))
-  if m = 2 ^ f.p then some { m := 2 ^ (f.p - 1), e := e + 1, inexact, tiny }
-  else some { m, e, inexact, tiny }
+  -- `roundAt n d e0`: as if the exponent range were unbounded, `p` significant bits
+  match roundAt n d e0, roundAt n d e with
+  | some (mu, _), some (m, inexact) =>
+    -- tiny after rounding: `mu · 2^e0 < 2^(p-1) · 2^qmin`, the smallest normal number
+    let tiny := decide (e0 < f.qmin ∧ ¬ (e0 + 1 = f.qmin ∧ mu = 2 ^ f.p))
+    if m = 2 ^ f.p then some { m := 2 ^ (f.p - 1), e := e + 1, inexact, tiny }
+    else some { m, e, inexact, tiny }
+  | _, _ => none            -- not reached: d > 0
 
 def pow2 (e : Int) : Rat := if e ≥ 0 then ((2 ^ e.toNat : Nat) : Rat) else 1 / ((2 ^ (-e).toNat : Nat) : Rat)
 
